@@ -1,6 +1,9 @@
 //! `sjh <property> <tier> <seed> [stats.json]` — runs the real serde_json in-process on generated
 //! cases and prints one line per case: `op args… => observation` (consumed by `sjdriver`).
 mod common;
+mod obs;
+mod gen;
+mod c01;
 mod c18;
 
 fn main() {
@@ -14,6 +17,7 @@ fn main() {
     let mut sink = common::Sink::new();
     match prop {
         "C18" => c18::run(&mut sink, thorough, seed),
+        "C01" => c01::run(&mut sink, thorough, seed),
         "replay" => { /* replay lines are `op args…` on stdin */
             let mut s = String::new();
             use std::io::Read;
@@ -34,6 +38,7 @@ fn main() {
 fn replay(sink: &mut common::Sink, toks: &[&str]) {
     match toks[0] {
         "ptr" | "ptrmut" | "pidx" => c18::replay(sink, toks),
+        "pv" | "pi" => c01::replay(sink, toks),
         _ => eprintln!("cannot replay op {}", toks[0]),
     }
 }
